@@ -159,13 +159,15 @@ def replay_z1d(sc):
 
 def replay_z1d_natural(sc):
     L, R = sc["L"], sc["R"]
+    omit = sc.get("omit_zero", True)
+    n = L + R if omit else L + R + 1
     P.PairingToZ1d.project.cache_clear()
-    pr = P.PairingToZ1d((-L, R), omit_zero=True)
-    states = [pr.project(k) for k in range(L + R)]
+    pr = P.PairingToZ1d((-L, R), omit_zero=omit)
+    states = [pr.project(k) for k in range(n)]
     back = [pr.pair(s) for s in states]
     P.PairingToZ1d.project.cache_clear()
-    ok = sorted(states) != [s for s in range(-L, R + 1) if s != 0] or back != list(range(L + R))
-    return ok, f"PairingToZ1d((-{L},{R})): states {states}, pair(states) {back}"
+    ok = sorted(states) != [s for s in range(-L, R + 1) if (s != 0 or not omit)] or back != list(range(n))
+    return ok, f"PairingToZ1d((-{L},{R}), omit_zero={omit}): states {states}, pair(states) {back}"
 
 
 def replay_lazy(sc):
@@ -331,16 +333,24 @@ def h_z1d_natural(ctx, L, R):
     ctx.prove("C14.PairingToZ1d.natural.distinct", AND(*[s != t for t in states[:-1]]) if kk else True, replay=rp)
 
 
-def h_z1d_state(ctx, L, R):
-    """pair/project for a symbolic state of the interval (pure part): project_fresh_natural(pair(s)) == s"""
-    pr = P.PairingToZ1d((-L, R), omit_zero=True)
+def h_z1d_state(ctx, L, R, omit_zero=True):
+    """pair/project for a symbolic state of the interval (pure part): project_fresh_natural(pair(s)) == s; omit_zero=False: the interval
+    keeps its zero (L + R + 1 states)"""
+    pr = P.PairingToZ1d((-L, R), omit_zero=omit_zero)
     s = ctx.int("s", -L, R)
-    ctx.assume(s != 0)
+    if omit_zero:
+        ctx.assume(s != 0)
+    top = L + R - 1 if omit_zero else L + R
+    rp = (replay_z1d_natural, lambda m: {"L": L, "R": R, "omit_zero": omit_zero})
     n = pr.pair(s)
-    ctx.prove("C14.PairingToZ1d.pair_range", AND(n >= 0, n <= L + R - 1), replay=(replay_z1d_natural, lambda m: {"L": L, "R": R}))
+    ctx.prove("C14.PairingToZ1d.pair_range", AND(n >= 0, n <= top), info={"omit_zero": omit_zero}, replay=rp)
+    t = ctx.int("t", -L, R)
+    if omit_zero:
+        ctx.assume(t != 0)
+    ctx.prove("C14.PairingToZ1d.pair_injective", IMPLIES(s != t, pr.pair(s) != pr.pair(t)), info={"omit_zero": omit_zero}, replay=rp)
     nn = n.__index__()
     states = [pr.project(j) for j in range(nn + 1)]
-    ctx.prove("C14.PairingToZ1d.project_pair", EQ(states[-1], s), replay=(replay_z1d_natural, lambda m: {"L": L, "R": R}))
+    ctx.prove("C14.PairingToZ1d.project_pair", EQ(states[-1], s), info={"omit_zero": omit_zero}, replay=rp)
 
 
 def h_z1d_order(ctx, L, R, nc):
@@ -631,6 +641,7 @@ def harnesses(tier):
     for L, R in LR:
         hs.append(Harness(f"z1d.natural.{L}.{R}", h_z1d_natural, {"L": L, "R": R}))
         hs.append(Harness(f"z1d.state.{L}.{R}", h_z1d_state, {"L": L, "R": R}))
+        hs.append(Harness(f"z1d.state.{L}.{R}.with_zero", h_z1d_state, {"L": L, "R": R, "omit_zero": False}))
     for L, R in ([(1, 3), (3, 1), (2, 2)] if q else [(1, 3), (3, 1), (2, 2), (2, 4), (4, 2), (3, 3), (1, 5)]):
         hs.append(Harness(f"z1d.order.{L}.{R}", h_z1d_order, {"L": L, "R": R, "nc": 2 if q else 3}, max_paths=4000))
     import itertools
